@@ -10,8 +10,8 @@ open Bomodel
      -> S=<ok|err>/<closed 0/1>/<shape b,f..|->/<left>;...  TR=<ev ev ...>
    B <maxbody> <slack> op op ...                     BodyReader (BodyAlloc.v)   ops: a:LEN  r:LEN  c
      -> S=<n|eof|toolong>/<buffers>/<index>/<left>;...  TR=<ev ev ...>     (observation after every op)
-   W <release> <mh> <fh> <zip> <limit> <rlimit> <moves bits|-> <frames> op op ...     WebSocket receive path (WsRecvAlloc.v)
-        frames: ';'-separated  op(d|c|t|b),fin,rsv1,rsvx,lk,mask,plen,neg,reply,clean,infl(o|l|b),ilen,grow   ('-' = none)
+   W <release> <mh> <fh> <zip> <limit> <rlimit> <recov> <moves bits|-> <frames> op op ...     WebSocket receive path (WsRecvAlloc.v)
+        frames: ';'-separated  op(d|c|t|b),fin,rsv1,rsvx,lk,mask,plen,neg,reply,clean,mpanic,fpanic,infl(o|l|b),ilen,grow   ('-' = none)
         ops: p:LEN (Parse of the next LEN bytes)   c (CloseAndClean)
      -> S=<ok|err|closed|toolong>/<cache>/<message>/<closed 0/1>;...  G=<buffers left to the application> TR=<ev ev ...>
    nat is an OCaml int (ExtrOcamlNatInt): ids, indices. N stays a Coq datatype. *)
@@ -126,18 +126,18 @@ let () =
           let r = match rs with [BOk n] -> string_of_int (int_of_n n) | [BEOF] -> "eof" | [BTooLong] -> "toolong" | _ -> "?" in
           Printf.sprintf "%s/%d/%d/%d" r (List.length b1.bufs) (int_of_n b1.bindex) (int_of_n b1.bleft)) bops in
         Printf.printf "S=%s TR=%s\n%!" (String.concat ";" obs) (String.concat " " (List.map show_ev !b.ba.trace))
-      | "W" :: rel :: mhs :: fhs :: zs :: lim :: rlim :: mv :: frs :: ops ->
+      | "W" :: rel :: mhs :: fhs :: zs :: lim :: rlim :: rcv :: mv :: frs :: ops ->
         let b s = (s = "1") in
         let ni s = n_of_int (int_of_string s) in
         let parse_frame t = match String.split_on_char ',' t with
-          | [op; fin; r1; rx; lk; mask; plen; neg; reply; clean; infl; ilen; grow] ->
+          | [op; fin; r1; rx; lk; mask; plen; neg; reply; clean; mpan; fpan; infl; ilen; grow] ->
             { f_op = (match op with "d" -> ODataFirst | "c" -> OCont | "t" -> OCtl | _ -> OBad);
               f_fin = b fin; f_rsv1 = b r1; f_rsvx = b rx; f_lk = ni lk; f_mask = b mask; f_plen = ni plen; f_neg = b neg;
-              f_reply = b reply; f_clean = b clean;
+              f_reply = b reply; f_clean = b clean; f_mpanic = b mpan; f_fpanic = b fpan;
               f_infl = (match infl with "l" -> ITooLarge | "b" -> IBad | _ -> IOk); f_ilen = ni ilen; f_grow = int_of_string grow }
           | _ -> failwith ("bad frame " ^ t) in
         let frames = if frs = "-" then [] else List.map parse_frame (String.split_on_char ';' frs) in
-        let cfg = { wrelease = b rel; wmh = b mhs; wfh = b fhs; wzip = b zs; wlimit = ni lim; wrlimit = ni rlim } in
+        let cfg = { wrelease = b rel; wmh = b mhs; wfh = b fhs; wzip = b zs; wlimit = ni lim; wrlimit = ni rlim; wrecov = b rcv } in
         let wops = List.map (fun tok -> match String.split_on_char ':' tok with
           | ["p"; l] -> WParse (ni l) | ["c"] -> WClose | _ -> failwith ("bad ws op " ^ tok)) (nonempty ops) in
         let (w, obs) = wrun cfg (w0 (bits mv) frames) wops in
